@@ -211,11 +211,17 @@ type sendRec struct {
 	lastReqID uint8
 	lastReq   []byte
 	haveReq   bool
+	last      []byte // the last packet handed to the send callback
+	maxLen    int
 }
 
 func (s *sendRec) send(proto uint16, data []byte) {
 	s.mu.Lock()
 	s.n++
+	s.last = append(s.last[:0], data...)
+	if len(data) > s.maxLen {
+		s.maxLen = len(data)
+	}
 	if len(data) >= 4 && data[0] == pppoe.LCPCodeConfigRequest {
 		s.lastReqID = data[1]
 		s.lastReq = append([]byte(nil), data[4:]...)
